@@ -113,6 +113,111 @@ theorem refraction_is_only_use (w : Weather ℝ) (alt : ℝ) :
       (1.02 / (toDegrees (Real.tan (toRadians (alt + 10.3 / (alt + 5.11)))) + 0.0019279)) / 60 := by
   simp only [refraction, sc_tan]; norm_num
 
+
+/-! ### The weather effect on rise/set, exactly -/
+
+/-- the factor by which weather scales the refraction: pressure/1010 · 283/(273+T) -/
+noncomputable def weatherFactor (w : Weather ℝ) : ℝ := w.pressure / 1010.0 * (283.0 / (273.0 + w.temperature))
+
+/-- the refraction (degrees) at unit factor: a function of the altitude only -/
+noncomputable def refr1 (alt : ℝ) : ℝ :=
+  1.02 / (toDegrees (Sc.tan (toRadians (alt + (10.3 / (alt + 5.11))))) + 0.0019279) / 60.0
+
+/-- the geometric altitude `get_shur_magh` evaluates at day fraction m and hour angle H (weather-free) -/
+noncomputable def altAt (lat dec dra : ℝ) (dd : ℝ × ℝ) (m H : ℝ) : ℝ :=
+  toDegrees (Sc.asin (Sc.sin (toRadians lat) * Sc.sin (toRadians (dec + m * (dd.1 + dd.2 * m) / 2.0))
+    + Sc.cos (toRadians lat) * Sc.cos (toRadians (dec + m * (dd.1 + dd.2 * m) / 2.0)) * Sc.cos (toRadians H - dra)))
+
+/-- the denominator of the correction step: 360 · cos δ · cos φ · sin H -/
+noncomputable def denomAt (lat dec dra : ℝ) (dd : ℝ × ℝ) (m H : ℝ) : ℝ :=
+  Gen.TWO_PI_DEG * Sc.cos (toRadians (dec + m * (dd.1 + dd.2 * m) / 2.0)) * Sc.cos (toRadians lat) *
+    Sc.sin (toRadians H - dra)
+
+theorem refraction_factor (w : Weather ℝ) (alt : ℝ) : refraction w alt = weatherFactor w * refr1 alt := by
+  simp only [refraction, weatherFactor, refr1]; rw [mul_div_assoc]
+
+/-- `get_shur_magh` in closed form: 24·(m + (alt₀ + μ(w)·ρ(alt₀) − h₀)/D) - weather enters through the
+    single factor μ(w), linearly -/
+theorem shurMagh_closed (lat dec dra : ℝ) (w : Weather ℝ) (dd : ℝ × ℝ) (m H : ℝ) :
+    shurMagh lat dec dra w dd m H = Gen.HRS_PER_DAY * (m +
+      (altAt lat dec dra dd m H + weatherFactor w * refr1 (altAt lat dec dra dd m H) - Gen.CENTER_OF_SUN_ANGLE) /
+        denomAt lat dec dra dd m H) := by
+  simp only [shurMagh, altAt, denomAt, refraction_factor]
+
+/-- **the exact weather effect**: the rise (set) time under weather w differs from the one under w′ by
+    24·(μ(w) − μ(w′))·ρ(alt₀)/D hours, where alt₀ and D do not depend on the weather - for every
+    latitude, declination, day fraction and hour angle -/
+theorem weather_shift_exact (lat dec dra : ℝ) (w w' : Weather ℝ) (dd : ℝ × ℝ) (m H : ℝ) :
+    shurMagh lat dec dra w dd m H - shurMagh lat dec dra w' dd m H =
+      24 * ((weatherFactor w - weatherFactor w') * refr1 (altAt lat dec dra dd m H) / denomAt lat dec dra dd m H) := by
+  rw [shurMagh_closed, shurMagh_closed, c_HRS_PER_DAY]; ring
+
+/-- over the valid pressure (100..1050 mbar) and temperature (−90..57 °C) ranges the factor lies in
+    [283/3333, 49525/30805] ⊂ (0.0849, 1.6078); the default weather (1010 mbar, 14 °C) gives 283/287 -/
+theorem weatherFactor_range (w : Weather ℝ) (hp : 100 ≤ w.pressure ∧ w.pressure ≤ 1050)
+    (ht : -90 ≤ w.temperature ∧ w.temperature ≤ 57) :
+    283 / 3333 ≤ weatherFactor w ∧ weatherFactor w ≤ 1050 / 1010 * (283 / 183) := by
+  unfold weatherFactor
+  have e1 : (1010.0 : ℝ) = 1010 := by norm_num
+  have e2 : (283.0 : ℝ) = 283 := by norm_num
+  have e3 : (273.0 : ℝ) = 273 := by norm_num
+  rw [e1, e2, e3]
+  obtain ⟨p1, p2⟩ := hp
+  obtain ⟨t1, t2⟩ := ht
+  have hd : (0 : ℝ) < 273 + w.temperature := by linarith
+  have hq1 : 283 / 330 ≤ 283 / (273 + w.temperature) := by
+    apply div_le_div_of_nonneg_left (by norm_num) hd (by linarith)
+  have hq2 : 283 / (273 + w.temperature) ≤ 283 / 183 := by
+    apply div_le_div_of_nonneg_left (by norm_num) (by norm_num) (by linarith)
+  have hq0 : (0 : ℝ) ≤ 283 / (273 + w.temperature) := by positivity
+  have hp0 : (0 : ℝ) ≤ w.pressure / 1010 := by positivity
+  constructor
+  · calc (283 : ℝ) / 3333 = 100 / 1010 * (283 / 330) := by norm_num
+      _ ≤ w.pressure / 1010 * (283 / 330) := by
+          apply mul_le_mul_of_nonneg_right _ (by norm_num); apply div_le_div_of_nonneg_right p1 (by norm_num)
+      _ ≤ w.pressure / 1010 * (283 / (273 + w.temperature)) := mul_le_mul_of_nonneg_left hq1 hp0
+  · calc w.pressure / 1010 * (283 / (273 + w.temperature)) ≤ w.pressure / 1010 * (283 / 183) :=
+          mul_le_mul_of_nonneg_left hq2 hp0
+      _ ≤ 1050 / 1010 * (283 / 183) := by
+          apply mul_le_mul_of_nonneg_right _ (by norm_num); apply div_le_div_of_nonneg_right p2 (by norm_num)
+
+theorem weatherFactor_default : weatherFactor (defaultWeather : Weather ℝ) = 283 / 287 := by
+  simp only [weatherFactor, defaultWeather, Gen.DEF_PRESSURE, Gen.DEF_TEMPERATURE]; norm_num
+
+/-- **"weather moves these two times by seconds only", conditionally**: for two weathers in the valid
+    ranges, if the unit refraction at the evaluated altitude is at most ρ degrees and the correction
+    denominator is at least D > 0 in absolute value, the rise (set) time moves by at most
+    24·1.53·ρ/D hours.  (At the horizon ρ ≈ 0.57° and D = 360·cos δ·cos φ·|sin H| ≥ 360·0.917·0.5·0.6
+    for |lat| ≤ 60 away from the existence boundary, which gives ≈ 0.21 h·ρ... the two envelope
+    quantities are what no theorem here bounds; the falsifier measures the shift itself, < 60 s.) -/
+theorem weather_shift_bound (lat dec dra : ℝ) (w w' : Weather ℝ) (dd : ℝ × ℝ) (m H ρ D : ℝ)
+    (hp : 100 ≤ w.pressure ∧ w.pressure ≤ 1050) (ht : -90 ≤ w.temperature ∧ w.temperature ≤ 57)
+    (hp' : 100 ≤ w'.pressure ∧ w'.pressure ≤ 1050) (ht' : -90 ≤ w'.temperature ∧ w'.temperature ≤ 57)
+    (hρ : |refr1 (altAt lat dec dra dd m H)| ≤ ρ) (hD0 : 0 < D) (hD : D ≤ |denomAt lat dec dra dd m H|) :
+    |shurMagh lat dec dra w dd m H - shurMagh lat dec dra w' dd m H| ≤ 24 * (1.53 * ρ / D) := by
+  rw [weather_shift_exact]
+  obtain ⟨a1, a2⟩ := weatherFactor_range w hp ht
+  obtain ⟨b1, b2⟩ := weatherFactor_range w' hp' ht'
+  have hμ : |weatherFactor w - weatherFactor w'| ≤ 1.53 := by
+    rw [abs_le]; constructor <;> norm_num at a1 a2 b1 b2 ⊢ <;> linarith
+  have hρ0 : 0 ≤ ρ := le_trans (abs_nonneg _) hρ
+  have hden : 0 < |denomAt lat dec dra dd m H| := lt_of_lt_of_le hD0 hD
+  rw [abs_mul, abs_div, abs_mul]
+  have h24 : |(24 : ℝ)| = 24 := by norm_num
+  rw [h24]
+  apply mul_le_mul_of_nonneg_left _ (by norm_num)
+  rw [div_le_div_iff₀ hden hD0]
+  calc |weatherFactor w - weatherFactor w'| * |refr1 (altAt lat dec dra dd m H)| * D
+      ≤ 1.53 * ρ * D := by
+        apply mul_le_mul_of_nonneg_right _ hD0.le
+        exact mul_le_mul hμ hρ (abs_nonneg _) (by norm_num)
+    _ ≤ 1.53 * ρ * |denomAt lat dec dra dd m H| := by
+        apply mul_le_mul_of_nonneg_left hD (by positivity)
+
+-- non-vacuity: the default weather and the corners of the valid box meet the range hypotheses
+example : (100 : ℝ) ≤ (⟨1010, 10⟩ : Weather ℝ).pressure ∧ (⟨1010, 10⟩ : Weather ℝ).pressure ≤ 1050 := by
+  constructor <;> norm_num
+
 /-- the hour angles of this property interpolate the right ascension with the deltas of the
     unwrapped sequence (Thm C13 `ra_wrap_lift`, restated: this property depends on it) -/
 theorem ra_wrap_lift (P C N : ℝ) (hC0 : 0 ≤ C) (hC1 : C < 360)
